@@ -441,6 +441,14 @@ Section Pcs.
     repeat match goal with E : _ q = _ q' |- _ => rewrite E; clear E end. reflexivity.
   Qed.
 
+  Lemma unsigned_unread_components_irrelevant_l pol ts q q' c s :
+    (verify_parsed P env pol ts (set_slack q s) c = verify_parsed P env pol ts q c) /\
+    (q_tee q = q_tee q' -> q_body q = q_body q' -> q_header q = q_header q' -> q_sig q = q_sig q' ->
+     q_attkey q = q_attkey q' -> q_qe_report q = q_qe_report q' -> q_qe_sig q = q_qe_sig q' ->
+     q_auth q = q_auth q' -> q_cert_type q = q_cert_type q' -> q_cert_data q = q_cert_data q' ->
+     verify_parsed P env pol ts q c = verify_parsed P env pol ts q' c).
+  Proof. split; [apply unread_components_irrelevant | apply verdict_frame]. Qed.
+
   (* ------------------------------------------------------------------ *)
   (* corollaries *)
 
